@@ -549,7 +549,7 @@ func (fc *fctx) construct(tt, t *Ty, d int) X {
 		switch {
 		case d <= 0 || g.Chance(1, 5, "e-slice-empty"):
 			if g.Bool("e-slice-nil") {
-				return cat(tt, "(nil)")
+				return cat("(", tt, ")(nil)")
 			}
 			return cat(tt, "{}")
 		case g.Chance(1, 4, "e-slice-make"):
@@ -574,7 +574,7 @@ func (fc *fctx) construct(tt, t *Ty, d int) X {
 	case 'm':
 		if d <= 0 || g.Chance(1, 3, "e-map-empty") {
 			if g.Chance(1, 4, "e-map-nil") {
-				return cat(tt, "(nil)")
+				return cat("(", tt, ")(nil)")
 			}
 			return cat(tt, "{}")
 		}
@@ -1180,7 +1180,7 @@ func (g *G) genRecursive() []*GFunc {
 		gf := &GFunc{name: g.Top("R"), params: []string{"T"}, class: []int{cAny},
 			fnames: []string{"n", "a", "acc"}, formals: []*Ty{tInt, T, sliceOf(T)}, results: []*Ty{sliceOf(T)}}
 		ev := g.Ev()
-		gf.body = cat("\trec.E(", ev, ", n, len(acc))\n\tif n <= 0 {\n\t\treturn acc\n\t}\n\treturn ", fref(gf, []*Ty{T}), "(n-1, a, append(acc, a))\n")
+		gf.body = cat("\tif n > 3 {\n\t\tn = 3\n\t}\n\trec.E(", ev, ", n, len(acc))\n\tif n <= 0 {\n\t\treturn acc\n\t}\n\treturn ", fref(gf, []*Ty{T}), "(n-1, a, append(acc, a))\n")
 		out = append(out, gf)
 	case 1:
 		ev, od := &GFunc{name: g.Top("Ev"), params: []string{"T"}, class: []int{cAny}}, &GFunc{name: g.Top("Od"), params: []string{"T"}, class: []int{cAny}}
@@ -1189,14 +1189,14 @@ func (g *G) genRecursive() []*GFunc {
 			f.formals = []*Ty{tInt, T}
 			f.results = []*Ty{tInt, T}
 		}
-		ev.body = cat("\tif n == 0 {\n\t\treturn 0, v\n\t}\n\tk, w := ", fref(od, []*Ty{T}), "(n-1, v)\n\treturn k + 1, w\n")
-		od.body = cat("\tif n == 0 {\n\t\treturn 100, v\n\t}\n\tk, w := ", fref(ev, []*Ty{T}), "(n-1, v)\n\treturn k + 1, w\n")
+		ev.body = cat("\tif n > 4 {\n\t\tn = 4\n\t}\n\tif n <= 0 {\n\t\treturn 0, v\n\t}\n\tk, w := ", fref(od, []*Ty{T}), "(n-1, v)\n\treturn k + 1, w\n")
+		od.body = cat("\tif n > 4 {\n\t\tn = 4\n\t}\n\tif n <= 0 {\n\t\treturn 100, v\n\t}\n\tk, w := ", fref(ev, []*Ty{T}), "(n-1, v)\n\treturn k + 1, w\n")
 		out = append(out, ev, od)
 	default:
 		gf := &GFunc{name: g.Top("Sw"), params: []string{"T", "U"}, class: []int{cAny, cAny},
 			fnames: []string{"n", "a", "b"}, formals: []*Ty{tInt, T, U}, results: []*Ty{tInt}}
 		e1 := g.Ev()
-		gf.body = cat("\trec.E(", e1, ", n, a, b)\n\tif n <= 0 {\n\t\treturn 0\n\t}\n\treturn 1 + ", fref(gf, []*Ty{U, T}), "(n-1, b, a)\n")
+		gf.body = cat("\tif n > 3 {\n\t\tn = 3\n\t}\n\trec.E(", e1, ", n, a, b)\n\tif n <= 0 {\n\t\treturn 0\n\t}\n\treturn 1 + ", fref(gf, []*Ty{U, T}), "(n-1, b, a)\n")
 		out = append(out, gf)
 	}
 	return out
